@@ -346,7 +346,17 @@ func vc17Run(rep *vh.Report, data []byte, ops []vc17Op, sweep bool) []vc17Obs {
 		o := doGet(len(ops), vc17Op{Kind: "get", Start: 0, Ln: size})
 		obs = append(obs, o)
 		for s := int64(0); s < size; s++ {
-			got, err := rc.GetRange(context.Background(), s, 1)
+			var got []byte
+			var err error
+			func() {
+				defer func() {
+					if r := recover(); r != nil {
+						fail("panic", len(ops)+1, "final GetRange(%d,1) panicked: %v", s, r)
+						got, err = []byte{data[s]}, nil // already reported
+					}
+				}()
+				got, err = rc.GetRange(context.Background(), s, 1)
+			}()
 			if err != nil || len(got) != 1 || got[0] != data[s] {
 				fail("wrong-bytes", len(ops)+1, "final GetRange(%d,1) returned %v, %v; the remote holds %d", s, got, err, data[s])
 				break
@@ -705,7 +715,16 @@ func vc17Concurrent(rep *vh.Report, seed uint64, round, readers, opsPer int) {
 		var got []byte
 		var err error
 		for try := 0; try < 50; try++ {
-			if got, err = rc.GetRange(context.Background(), s, size-s); err == nil {
+			func() {
+				defer func() {
+					if r := recover(); r != nil {
+						addBad("panic", "after the concurrent run GetRange(%d,%d) panicked: %v", s, size-s, r)
+						err = fmt.Errorf("panic")
+					}
+				}()
+				got, err = rc.GetRange(context.Background(), s, size-s)
+			}()
+			if err == nil {
 				break
 			}
 		}
@@ -736,7 +755,7 @@ func vc17WritePolicyCopy() error {
 func TestVerif_C17(t *testing.T) {
 	rng := vh.NewRng(vh.Seed())
 	rep := vh.NewReport("C17", "rangecache",
-		"exhaustive: every history of GetRange/SetRange/DeleteOldEntries (all in-file ranges incl. empty ones, out-of-file and int64-overflowing reads, failing remote at any call, cancelled contexts, expiry of chosen entries) of length<=2 over the full alphabet of a 6-byte file, length 3 over a reduced alphabet, length 4 (5 thorough) over a 4-byte file, each followed by a truth sweep; + random long histories; + concurrent readers against expiry/SetRange (oracle only). A history is non-trivial when it has >=2 operations and a successful read; distinct by operation sequence")
+		"exhaustive: every history of GetRange/SetRange/DeleteOldEntries (all in-file ranges incl. empty ones, out-of-file and int64-overflowing reads, failing remote at any call, cancelled contexts, expiry of chosen entries) of length<=2 over the full alphabet of a 6-byte file, length 3 over a reduced alphabet, length 4 over a 4-byte file (thorough: also length 3 over the full alphabet and length 5 over a 3-byte file), each followed by a truth sweep; + random long histories; + concurrent readers against expiry/SetRange (oracle only). A history is non-trivial when it has >=2 operations and a successful read; distinct by operation sequence")
 	cases := vh.NewCases("cases_c17", []string{"YF.C17_RC", "YF.C17_Check"}, "case", "check")
 
 	// 1. exhaustive short histories
@@ -758,7 +777,7 @@ func TestVerif_C17(t *testing.T) {
 	vc17Enumerate(rep, cases, rng, "red4", d4, small, 4, 600/coqScale)
 	if vh.Thorough() {
 		vc17Enumerate(rep, cases, rng, "full6", d6, full, 3, 2000)
-		vc17Enumerate(rep, cases, rng, "red4", d4, small, 5, 15000)
+		vc17Enumerate(rep, cases, rng, "red3", vc17Data(3), vc17ReducedAlphabet(3), 5, 3000)
 	}
 	rep.Exhaustive = true
 
